@@ -57,6 +57,24 @@ def renumberStats (P : Prog) (ρ : Ren) : String :=
     | none => none)
   if toks.isEmpty then "-" else ",".intercalate toks
 
+/-- `SrcWf` (Lemmas/Packaging/MergeLoops.lean) decided: operands in range, backward function references, no
+    `Process` literal -/
+def srcWfB (P : Prog) : Bool :=
+  (List.range P.fns.size).all (fun i =>
+    match P.fns[i]? with
+    | some F =>
+      decide (F.typeId < P.types.size) &&
+      F.instrs.all (fun a =>
+        match a with
+        | .const c => decide (c < P.consts.size)
+        | .tuple u => decide (u < P.tuples.size)
+        | .isType t => decide (t < P.types.size)
+        | .builtin b => decide (b < P.builtins.size)
+        | .function g => decide (g < i)
+        | .process _ _ => false
+        | _ => true)
+    | none => true)
+
 def c10Step (st : C10State) (req : List Sx) : C10State × String :=
   match req with
   | [.list (.atom "prog" :: .atom slot :: parts)] =>
@@ -92,7 +110,7 @@ def c10Step (st : C10State) (req : List Sx) : C10State × String :=
           let v := validateB { out.ren with resource := resourceMap P R } P R e out.entry
           let why := if v then "" else s!" failing={(firstFailing (checks { out.ren with resource := resourceMap P R } P R e out.entry)).getD "?"}"
           let kd := distinctB (out.ren.type.map (·.1)) && distinctB (out.ren.tuple.map (·.1))
-          (st, s!"equal entry={out.entry} validate={v}{why} keys-distinct={kd}")
+          (st, s!"equal entry={out.entry} validate={v}{why} keys-distinct={kd} src-wf={srcWfB P}")
     | _, _, _, _ => (st, "bad-request")
   | [.list [.atom "shake", ea]] =>
     -- `treeShake A e` compared with slot B (the real `tree_shake(A, e)`), field by field, and the
